@@ -74,7 +74,9 @@ fn frame_for<P: Protocol>(router: bool, rng: &mut impl Rng, i: usize) -> Vec<u8>
         ipv4_packet([10, 0, 9, i as u8], dst, &[1, 2, 3, 4])
     } else {
         let dst = if rng.gen_bool(0.4) { [0xff; 6] } else { mac(10 + rng.gen_range(0..4)) };
-        eth_frame(dst, mac(10 + i as u8), None, &[5, 6, 7, 8])
+        // untagged, priority-tagged (VLAN id 0, any PCP/DEI), two VLANs
+        let tci = [None, None, Some(0u16), Some(0xa000), Some(5), Some(0x6005), Some(0x0fff)][rng.gen_range(0..7)];
+        eth_frame(dst, mac(10 + i as u8), tci, &[5, 6, 7, 8])
     }
 }
 
@@ -109,6 +111,7 @@ fn one<P: Protocol>(run: u64, stream: u64, mode: Mode, steps: u64, focus: &str) 
         "C10" => (30, 4, 5, 5),
         "C12" => (12, 14, 5, 4),
         "C02" => (20, 12, 10, 10),
+        "C11" | "C13" => (40, 8, 4, 4),
         _ => (15, 6, 7, 6),
     };
     // bootstrap: a random connected dial pattern, sometimes a configured (reconnect) peer
@@ -278,7 +281,12 @@ pub fn run(tier: &str, out_path: &str, first: u64, count: u64, focus: &str) -> V
     let ids: Vec<u64> = (first..first + runs).collect();
     let results = parallel_map(&ids, |_, k| {
         let stream = 77000 + *k + seed() * 1_000_000;
-        match *k % 3 {
+        let m = match focus {
+            "C11" => [0, 0, 0, 1, 0, 2][(*k % 6) as usize],
+            "C13" => [1, 1, 1, 0, 1, 2][(*k % 6) as usize],
+            _ => *k % 3,
+        };
+        match m {
             0 => one::<Packet>(*k, stream, Mode::Router, steps, focus),
             1 => one::<Frame>(*k, stream, Mode::Switch, steps, focus),
             _ => one::<Frame>(*k, stream, Mode::Hub, steps, focus),
